@@ -297,6 +297,7 @@ func modelLookup(name string, env Env) (*terminfo.Terminfo, bool) {
 type Lookup struct {
 	Name string `json:"name"`
 	Env  Env    `json:"env"`
+	Root bool   `json:"root,omitempty"` // through tcell.LookupTerminfo (root package) instead of terminfo.LookupTerminfo
 }
 
 type HistCase struct {
@@ -348,7 +349,13 @@ func genHist(t *rapid.T) HistCase {
 			}
 			name = stem + rapid.SampledFrom([]string{"", "-color", "-88color", "-256color", "-truecolor"}).Draw(t, "relsuffix")
 		}
-		c.Lookups = append(c.Lookups, Lookup{Name: name, Env: env})
+		lk := Lookup{Name: name, Env: env}
+		if _, ok := modelLookup(name, env); ok && rapid.IntRange(0, 3).Draw(t, "root") == 0 {
+			// names the built-in database resolves: the root-package entry point must
+			// behave the same (for unknown names it would consult the host's infocmp)
+			lk.Root = true
+		}
+		c.Lookups = append(c.Lookups, lk)
 	}
 	return c
 }
@@ -369,8 +376,14 @@ func histProp(c HistCase) error {
 	defer restore()
 	for i, l := range c.Lookups {
 		setenv(l.Env)
-		got, err := terminfo.LookupTerminfo(l.Name)
+		var got *terminfo.Terminfo
+		var err error
 		want, ok := modelLookup(l.Name, l.Env)
+		if l.Root && ok {
+			got, err = tcell.LookupTerminfo(l.Name)
+		} else {
+			got, err = terminfo.LookupTerminfo(l.Name)
+		}
 		if !ok {
 			if err == nil || !errors.Is(err, terminfo.ErrTermNotFound) || got != nil {
 				return fmt.Errorf("lookup %d %q: unknown name must fail with ErrTermNotFound, got entry=%v err=%v", i, l.Name, got != nil, err)
@@ -514,7 +527,7 @@ func pairSweep(t *testing.T) {
 					if !sw.Mine(item) {
 						continue
 					}
-					c := HistCase{Lookups: []Lookup{{s + a, e1}, {s + b, Env{}}}}
+					c := HistCase{Lookups: []Lookup{{Name: s + a, Env: e1}, {Name: s + b, Env: Env{}}}}
 					err := histProp(c)
 					cc := c
 					sw.Case(a != b, pbt.HashStr("pair", s, a, b, strconv.Itoa(ei)), func() any { return cc }, err, nil)
